@@ -919,7 +919,7 @@ class FileHashStore(HashStore):
                     if self.use_multiprocessing:
                         with self.metadata_condition_mp:
                             # Wait for the pid to release if it's in use
-                            while pid in self.metadata_locked_docs_mp:
+                            while pid_doc in self.metadata_locked_docs_mp:
                                 self.fhs_logger.debug(sync_wait_msg)
                                 self.metadata_condition_mp.wait()
                             # Modify metadata_locked_docs consecutively
@@ -927,14 +927,18 @@ class FileHashStore(HashStore):
                             self.metadata_locked_docs_mp.append(pid_doc)
                     else:
                         with self.metadata_condition_th:
-                            while pid in self.metadata_locked_docs_th:
+                            while pid_doc in self.metadata_locked_docs_th:
                                 self.fhs_logger.debug(sync_wait_msg)
                                 self.metadata_condition_th.wait()
                             self.fhs_logger.debug(sync_begin_debug_msg)
                             self.metadata_locked_docs_th.append(pid_doc)
                     try:
-                        # Mark metadata doc for deletion
-                        objects_to_delete.append(self._rename_path_for_deletion(path))
+                        # Mark metadata doc for deletion, unless another caller has
+                        # deleted it since the directory was listed
+                        if os.path.isfile(path):
+                            objects_to_delete.append(
+                                self._rename_path_for_deletion(path)
+                            )
                     finally:
                         # Release pid
                         end_sync_debug_msg = (
@@ -971,7 +975,7 @@ class FileHashStore(HashStore):
             if self.use_multiprocessing:
                 with self.metadata_condition_mp:
                     # Wait for the pid to release if it's in use
-                    while pid in self.metadata_locked_docs_mp:
+                    while pid_doc in self.metadata_locked_docs_mp:
                         self.fhs_logger.debug(sync_wait_msg)
                         self.metadata_condition_mp.wait()
                     # Modify metadata_locked_docs consecutively
@@ -979,7 +983,7 @@ class FileHashStore(HashStore):
                     self.metadata_locked_docs_mp.append(pid_doc)
             else:
                 with self.metadata_condition_th:
-                    while pid in self.metadata_locked_docs_th:
+                    while pid_doc in self.metadata_locked_docs_th:
                         self.fhs_logger.debug(sync_wait_msg)
                         self.metadata_condition_th.wait()
                     self.fhs_logger.debug(sync_begin_debug_msg)
